@@ -430,3 +430,71 @@ Section SettingsProofs.
     - rewrite Hs in Hn. congruence.
   Qed.
 End SettingsProofs.
+
+(* ------------------------------------------------------------------ without settings: the verified converter *)
+Section NodeExt.
+  Variable cls : Heck.CharClasses.
+  Variable rid : ustring -> option id.
+  Variables cv1 cv2 : schema -> name -> st -> option (details * st).
+  Variable Q : schema -> Prop.
+  Hypothesis Hcv : forall s, Q s -> forall nm s0, cv1 s nm s0 = cv2 s nm s0.
+
+  Lemma conv_prop_ext base req k s' s0 : Q s' ->
+    conv_prop cls cv1 base req k s' s0 = conv_prop cls cv2 base req k s' s0.
+  Proof. intro HQ. unfold conv_prop. rewrite (Hcv _ HQ). reflexivity. Qed.
+
+  Lemma conv_props_ext base req : forall props, Forall (fun kv => Q (snd kv)) props -> forall s0,
+    conv_props cls cv1 base req props s0 = conv_props cls cv2 base req props s0.
+  Proof.
+    induction props as [|[k s'] props IH]; intros HQ s0; cbn [conv_props]; [reflexivity|].
+    rewrite (conv_prop_ext base req k s' s0 (Forall_inv HQ)).
+    destruct (conv_prop cls cv2 base req k s' s0) as [[p sa]|]; [|reflexivity].
+    rewrite (IH (Forall_inv_tail HQ)). reflexivity.
+  Qed.
+
+  Lemma conv_items_ext nm : forall l, Forall Q l -> forall i s0,
+    conv_items cv1 nm i l s0 = conv_items cv2 nm i l s0.
+  Proof.
+    induction l as [|it l IH]; intros HQ i s0; cbn [conv_items]; [reflexivity|].
+    rewrite (Hcv _ (Forall_inv HQ)). destruct (cv2 it _ s0) as [[te sa]|]; [|reflexivity].
+    destruct (assign te sa) as [t sb]. rewrite (IH (Forall_inv_tail HQ)). reflexivity.
+  Qed.
+
+  Lemma conv_kind_ext k nm items props req ap s0 :
+    Forall Q items -> Forall (fun kv => Q (snd kv)) props -> OForall Q ap ->
+    conv_kind cls rid cv1 k nm items props req ap s0 = conv_kind cls rid cv2 k nm items props req ap s0.
+  Proof.
+    intros HQi HQp HQa. destruct k; cbn [conv_kind]; try reflexivity.
+    - destruct (type_name cls nm); [|reflexivity]. rewrite (conv_props_ext _ _ _ HQp). reflexivity.
+    - destruct (assign DString s0). destruct ap as [vs|]; [|reflexivity]. rewrite (Hcv _ HQa). reflexivity.
+    - rewrite (conv_items_ext _ _ HQi). reflexivity.
+    - destruct items as [|it [|? ?]]; try reflexivity. rewrite (Hcv _ (Forall_inv HQi)). reflexivity.
+  Qed.
+
+  Lemma conv_node_ext c nm items props req ap s0 :
+    Forall Q items -> Forall (fun kv => Q (snd kv)) props -> OForall Q ap ->
+    conv_node cls rid cv1 c nm items props req ap s0 = conv_node cls rid cv2 c nm items props req ap s0.
+  Proof.
+    intros HQi HQp HQa. destruct c as [[[|] k]|]; cbn [conv_node]; [| |reflexivity];
+      rewrite (conv_kind_ext _ _ _ _ _ _ _ HQi HQp HQa); reflexivity.
+  Qed.
+End NodeExt.
+
+Lemma cache_lookup_none s : cache_lookup no_settings s = None.
+Proof. destruct s; reflexivity. Qed.
+
+(* [C14F] with no settings the model is the verified converter of Algo/Convert.v, at every schema *)
+Theorem conv_s_no_settings cls rid : forall s nm s0, conv_s cls no_settings rid s nm s0 = conv cls rid s nm s0.
+Proof.
+  apply (schema_ind' (fun s => forall nm s0, conv_s cls no_settings rid s nm s0 = conv cls rid s nm s0)).
+  - intros [|] nm s0; reflexivity.
+  - intros ty fmt enum cst nv sv ik items ai mni mxi uq props req ap mnp mxp allo anyo oneo no ref dflt title
+           IHi _ IHp IHa _ _ _ _ nm s0.
+    cbn [conv_s conv]. rewrite cache_lookup_none.
+    assert (E : match null_inner (SObj ty fmt enum cst nv sv ik items ai mni mxi uq props req ap mnp mxp allo anyo oneo no ref dflt title)
+                with Some ss => cache_lookup no_settings ss | None => None end = None).
+    { destruct (null_inner _); [apply cache_lookup_none|reflexivity]. }
+    rewrite E.
+    apply (conv_node_ext cls rid _ _ (fun s => forall nm s0, conv_s cls no_settings rid s nm s0 = conv cls rid s nm s0));
+      [intros s HQ; exact HQ|assumption..].
+Qed.
